@@ -47,6 +47,8 @@ def script_of(plan):
     lg = "  logger lg to /simlog"
     if plan.get("lperiod"):
         lg += " at %s" % plan["lperiod"]
+    if plan.get("prefill"):
+        lg += " reuse"      # the fixed directory of an earlier process, in which a log file of that name already exists
     L.append(lg + " flush 1.0")
     rule = plan["rule"]
     L.append("    log l1 on %s" % rule)
@@ -79,7 +81,7 @@ class C22(Check):
     components["stub"] = COMPONENTS["stub"] + ["file system (substrate.fs.SimFS, no faults)", "calendar (log directory name)"]
     assumptions = ["'update': at each logger run after the first a record is due iff some loggee was updated after the previous record in execution order (not stamp order)",
                    "the final log pass made when the logger is stopped counts as a logger run"]
-    required_probes = ["update-after-logger-same-tick", "same-value-update", "logger-period", "streak", "deck", "logger-restarted", "deck-empty-mapping", "deck-non-mapping-skipped"]
+    required_probes = ["update-after-logger-same-tick", "same-value-update", "logger-period", "streak", "deck", "logger-restarted", "deck-empty-mapping", "deck-non-mapping-skipped", "reused-empty-file", "reused-content-file"]
     quick_runs = 6000
     thorough_runs = 300000
     shrink_fields = ["hist0", "hist1"]
@@ -125,7 +127,10 @@ class C22(Check):
             return h
         return {"P": P, "ticks": ticks, "rule": rule, "fields": g.choice([None, "a", "two"]),
                 "lperiod": g.choice([None, None, "0.5", "0.75"]), "hist0": hist(), "hist1": hist(),
-                "restart": g.randint(1, max(1, ticks - 3)) if rule in ("always", "once", "never") and g.random() < 0.35 else None}
+                "restart": g.randint(1, max(1, ticks - 3)) if rule in ("always", "once", "never") and g.random() < 0.35 else None,
+                # an earlier process left a log file of the same name in the (reused) directory: empty (it died before its header
+                # reached the disk) or started (header and a record): only the empty one is a new file and gets a header
+                "prefill": g.choice([None, None, None, None, None, "empty", "empty", "content"])}
 
     def execute(self, plan):
         out = Outcome()
@@ -139,7 +144,21 @@ class C22(Check):
             for t, path, field, val in plan[key]:
                 env[eid].setdefault(t, []).append((path, field, val))
         P = Fraction(plan["P"])
-        res, fs, killed = run_logged(script, float(P), env_table=env, cap=float((plan["ticks"] + 10) * P))
+        fs0 = None
+        old_text = ""
+        if plan.get("prefill"):
+            from substrate.fs import SimFS, Inode
+            from logsim.harness import LOGDIR
+            fs0 = SimFS()
+            fs0.makedirs(LOGDIR)
+            ino = Inode()
+            if plan["prefill"] == "content":
+                old_text = "OLDHEADER\nold\trecord\n"
+                ino.data.append(old_text)
+                ino.synced = 1
+            fs0.files[LOGDIR + "/l1.txt"] = ino
+            out.probe("reused-" + plan["prefill"] + "-file")
+        res, fs, killed = run_logged(script, float(P), env_table=env, cap=float((plan["ticks"] + 10) * P), fs=fs0)
         if res is None or not res.built or res.exc is not None:
             out.violate("rejected", "logging program rejected or raised", "res=%r exc=%r errors=%r\n%s" % (res, getattr(res, "exc", None), getattr(res, "build_errors", None), script))
             out.digest = tr.digest()
@@ -162,6 +181,15 @@ class C22(Check):
         def bad(kind, detail):
             out.violate(kind, "%s: %s" % (sig, kind), "%s\nfile=%r\n%s" % (detail, text, script))
 
+        if old_text:
+            # a started file is continued: no second header, the old content untouched
+            if text is not None and text.startswith(old_text) and "text\t" not in text:
+                text = header + text[len(old_text):]
+            elif text is not None:
+                bad("header", "a reused log file that was already started was not simply continued")
+                text = None
+                out.digest = tr.digest()
+                return out
         if text is None:
             bad("no-file", "log file missing; files %r" % sorted(files))
         elif not text.startswith(header):
